@@ -1228,28 +1228,41 @@ func (rn *Runner) Run() {
 		var oerr error
 		var calls [][]int
 		pan := ""
+		// a panic inside any render operation is a result of that operation
+		guard := func(f func()) {
+			defer func() {
+				if x := recover(); x != nil {
+					pan = fmt.Sprint(x)
+				}
+			}()
+			f()
+		}
 		switch op {
 		case "WriteTo":
 			calls = recordB64(func() { n, oerr, pan = safeWriteTo(built.Msg, &out) })
 		case "Write":
-			n, oerr = built.Msg.Write(&out)
+			guard(func() { n, oerr = built.Msg.Write(&out) })
 		case "Reader":
-			reader = built.Msg.NewReader()
-			_, oerr = io.Copy(&out, reader)
-			if oerr == nil {
-				oerr = reader.Error()
-			}
+			guard(func() {
+				reader = built.Msg.NewReader()
+				_, oerr = io.Copy(&out, reader)
+				if oerr == nil {
+					oerr = reader.Error()
+				}
+			})
 			n = int64(out.Len())
 		case "UpdateReader":
-			if reader == nil {
-				reader = built.Msg.NewReader()
-			} else {
-				built.Msg.UpdateReader(reader)
-			}
-			_, oerr = io.Copy(&out, reader)
-			if oerr == nil {
-				oerr = reader.Error()
-			}
+			guard(func() {
+				if reader == nil {
+					reader = built.Msg.NewReader()
+				} else {
+					built.Msg.UpdateReader(reader)
+				}
+				_, oerr = io.Copy(&out, reader)
+				if oerr == nil {
+					oerr = reader.Error()
+				}
+			})
 			n = int64(out.Len())
 		case "File", "FileOver":
 			path := filepath.Join(rn.TmpDir, fmt.Sprintf("out-%d-%d.eml", rn.T, k))
@@ -1259,8 +1272,8 @@ func (rn *Runner) Run() {
 					return
 				}
 			}
-			oerr = built.Msg.WriteToFile(path)
-			if oerr == nil {
+			guard(func() { oerr = built.Msg.WriteToFile(path) })
+			if oerr == nil && pan == "" {
 				var b []byte
 				b, oerr = os.ReadFile(path)
 				out.Write(b)
@@ -1269,8 +1282,8 @@ func (rn *Runner) Run() {
 			n = int64(out.Len())
 		case "TempFile":
 			var path string
-			path, oerr = built.Msg.WriteToTempFile()
-			if oerr == nil {
+			guard(func() { path, oerr = built.Msg.WriteToTempFile() })
+			if oerr == nil && pan == "" {
 				var b []byte
 				b, oerr = os.ReadFile(path)
 				out.Write(b)
